@@ -782,6 +782,10 @@ class _ActionSubCommands(_SubParsersAction):
             return
 
         for subcommand, subparser in zip(subcommands, subparsers):
+            if subparser is None:
+                available = list(parser._subcommands_action._name_parser_map)  # type: ignore[union-attr]
+                raise NSKeyError(f'Unknown subcommand "{subcommand}", expected one of {available}')
+
             # Merge environment variable values and default values
             subnamespace = None
             key = prefix + subcommand
